@@ -678,12 +678,14 @@ static void *rreader_main(void *arg)
 
 /* hooks called from the sim (FSM thread) */
 static int PRESET_NEXT;
-void conc_on_reset_query_answered(void);
-void conc_on_reset_query_answered(void)
+void conc_on_reset_query_answered(struct sim *s);
+void conc_on_reset_query_answered(struct sim *s)
 {
-	/* the complete data set DS[EPOCH+1] is about to go over the wire */
+	/* the complete data set DS[e] is about to go over the wire (again, if an earlier attempt was cut short) */
+	int e = s->preset_next > 0 ? s->preset_next - 1 : 0;
+
 	__atomic_store_n(&RELOADING, 1, __ATOMIC_SEQ_CST);
-	__atomic_store_n(&EPOCH, EPOCH + 1, __ATOMIC_SEQ_CST);
+	__atomic_store_n(&EPOCH, e, __ATOMIC_SEQ_CST);
 }
 
 static void conc_state_cb(const struct rtr_socket *sock, const enum rtr_socket_state state, void *cfgp, void *grpp)
@@ -763,6 +765,7 @@ static void run_reload_case(struct rng *r, long c, int nepoch, int nrec, int nre
 	cfg.chunk_rx = CH_MAX;
 	cfg.chunk_tx = CH_MAX;
 	cfg.max_queries = 0;
+	cfg.horizon = (time_t)nepoch * 400 + 3000; /* backstop: a client that never completes its reloads must not hang the run */
 	sim_init(s, &RU, &cfg, rnd64(r));
 	s->cache.session = (uint16_t)rnd32(r);
 	s->cache.serial = rnd32(r);
@@ -805,6 +808,28 @@ static void run_reload_case(struct rng *r, long c, int nepoch, int nrec, int nre
 	/* every poll finds a restarted cache holding the next data set: Cache Reset, then a full reload */
 	s->cfg.max_queries = 1 + 2L * nepoch;
 	s->restart_every_poll = true;
+	/* some reloads are cut short after a few PDUs (the cache falls silent): the old set must stay in place,
+	 * and the retry must be as atomic as the first attempt */
+	{
+		int q = 2, nfail = 0;
+
+		for (int e = 1; e <= nepoch && q < MAX_XPLAN - 2; e++) {
+			if (rndp(r, 1, 3)) {
+				s->cfg.xplan[q].defect = D_TRUNCATE_SILENT;
+				s->cfg.xplan[q].pos = -3;
+				s->cfg.xplan[q].param = 0;
+				q += 1; /* the retry is one more Reset Query */
+				nfail++;
+			}
+			for (int k = 0; k <= q; k++)
+				if (s->cfg.xplan[k].defect == D_NONE)
+					s->cfg.xplan[k].pos = -1;
+			q += 2;
+		}
+		s->cfg.nxplan = q < MAX_XPLAN ? q : MAX_XPLAN;
+		s->cfg.max_queries += nfail;
+		cnt_add("c06/reloads_cut_short_then_retried", (uint64_t)nfail);
+	}
 	rd = calloc((size_t)nreaders, sizeof(*rd));
 	for (int i = 0; i < nreaders; i++) {
 		rd[i].pt = &pt;
@@ -833,6 +858,8 @@ static void run_reload_case(struct rng *r, long c, int nepoch, int nrec, int nre
 	cnt_add("c06/new_set_observations", tot.saw_new);
 	cnt_add("c06/discarded_epoch_changed_during_call", tot.discarded);
 	cnt_add("c06/reloads_completed", (uint64_t)(EPOCH > 0 ? EPOCH : 0));
+	if (EPOCH < nepoch || sock.state != RTR_ESTABLISHED)
+		CNT("c06/runs_ended_by_horizon_before_all_reloads_completed");
 	if (tot.inflight)
 		nontrivial(hmix(hmix((uint64_t)c, tot.inflight), tot.n));
 	if (want_sample())
